@@ -40,6 +40,9 @@
 (*  Num_Ea_Species Num_EA_Species  printed activation value = the value    *)
 (*      this specification computes from the SPECIES' H/RT or G/RT (witness *)
 (*      `wit`: barrier, reaction change, clamp at 0, times R*T)            *)
+(*  Num_A_Species  printed pre-exponential factor = (kb/h) exp(dS/R) /      *)
+(*      site_den^(n-1) computed here from the species list of M (surface  *)
+(*      reactants counted, bulk and gas not) and the species' entropies   *)
 (*  ReaderRaises, ReadBack (pmutt's reader returns, in file order, the     *)
 (*      reactions this specification reads in the same file)               *)
 (*  ReplayDoc (S->C: documents = the ones TLC expected)                     *)
@@ -190,6 +193,50 @@ SpeciesClauses(M, entries, wit, first, name) ==
                  : i \in {x \in Denotes(M, entries[k]) : wit[x].ok}}
           : k \in DOMAIN entries}
 
+\* ---- pre-exponential factor from the SPECIES LIST (not from ChemkinReaction.get_A).  Rule written
+\* in the header of surf.inp:  A = (kb/h) exp(dS_act/R) / site_den^(n - 1), n = number of surface
+\* reactants (adsorbates; gas and BULK reactants are not counted and give no site density),
+\* site_den = sden_operation over the site densities of those n reactant sites (taken from M).
+\* Witness w = [ok, hasS, ts, is (<<coef, S_i/R>> from the species' own get_SoR), ds, ex = exp(ds)
+\* (libm sensor of the logged ds), op, eff (the harness' numpy value of site_den, verified here)].
+\* Checked without division:  printed A * site_den^(n-1) = (kb/h) * ex  to the printed precision
+\* plus 1e-5 relative (Dec sums of entropies, exp amplifies their absolute error).
+KbOverH == <<208366120, 2>>
+SurfDens(M, r) ==
+   LET piece(t) == IF M.sp[t[2]].ph # "G" /\ ~M.sp[t[2]].bulk /\ M.sp[t[2]].site > 0
+                   THEN [k \in 1..t[1] |-> M.sites[M.sp[t[2]].site].sden] ELSE <<>>
+       f[i \in 0..Len(r.lhs)] == IF i = 0 THEN <<>> ELSE f[i - 1] \o piece(r.lhs[i])
+   IN f[Len(r.lhs)]
+RECURSIVE PowD(_, _)
+PowD(x, n) == IF n <= 0 THEN <<1, 0>> ELSE Mul(x, PowD(x, n - 1))
+EffOK(op, dens, eff) ==
+   LET n == Len(dens)  sum == SumSeq(dens) IN
+   IF n = 0 THEN TRUE
+   ELSE IF op = "min" THEN (\A k \in 1..n : Le(eff, dens[k])) /\ (\E k \in 1..n : Close(eff, dens[k], 8))
+   ELSE IF op = "max" THEN (\A k \in 1..n : Le(dens[k], eff)) /\ (\E k \in 1..n : Close(eff, dens[k], 8))
+   ELSE IF op = "sum" THEN Close(eff, sum, 7)
+   ELSE IF op = "mean" THEN Close(Mul(I(n), eff), sum, 7)
+   ELSE IF op = "median" THEN
+        /\ 2 * Cardinality({k \in 1..n : Lt(dens[k], eff)}) <= n
+        /\ 2 * Cardinality({k \in 1..n : Lt(eff, dens[k])}) <= n
+        /\ \E a, b \in 1..n : Close(Add(eff, eff), Add(dens[a], dens[b]), 7)
+   ELSE FALSE
+EntropyOK(w) ==
+   IF ~w.hasS THEN w.ex = <<1, 0>>
+   ELSE LET ts == TermVals(w.ts, <<1, 0>>)  is == TermVals(w.is, <<1, 0>>)
+        IN CloseIn(w.ds, Sub(SumSeq(ts), SumSeq(is)), Range(ts) \cup Range(is), 6)
+AValueOK(v, w, dens) ==
+   LET P == IF Len(dens) = 0 THEN <<1, 0>> ELSE PowD(w.eff, Len(dens) - 1)
+       lhs == Mul(v, P)
+       rhs == Mul(KbOverH, w.ex)
+   IN Le(DAbs(Sub(lhs, rhs)), Add(Mul(<<525, v[2] - 3>>, P), <<rhs[1], rhs[2] - 5>>))
+AClauses(M, entries, awit) ==
+   UNION {UNION {LET dens == SurfDens(M, M.rx[i]) IN
+                 IF ~(EffOK(awit[i].op, dens, awit[i].eff) /\ EntropyOK(awit[i])) THEN {"WitnessBroken"}
+                 ELSE Some(AValueOK(entries[k].nums[1], awit[i], dens), "Num_A_Species")
+                 : i \in {x \in Denotes(M, entries[k]) : awit[x].ok /\ Len(entries[k].nums) >= 1}}
+          : k \in DOMAIN entries}
+
 GasClauses(e, d) ==
    LET M == st.M IN
    Some(d.wf, "WellFormed")
@@ -198,6 +245,7 @@ GasClauses(e, d) ==
    \cup SectionClauses(M, d.rx, TRUE, TRUE)
    \cup ColumnClauses(M, d.rx, e.model, ABE)
    \cup SpeciesClauses(M, d.rx, e.wit, 3, "Num_Ea_Species")
+   \cup AClauses(M, d.rx, e.awit)
    \cup (IF st.hasexp
          THEN Some(InFile(M, d.rx) = {i \in DOMAIN M.rx : st.exp.gasrx[i] = 1}
                    /\ Range(d.sp) = Range(st.exp.gassp), "ReplayDoc")
@@ -214,6 +262,7 @@ SurfClauses(e, d) ==
    \cup SectionClauses(M, d.rx, FALSE, TRUE)
    \cup ColumnClauses(M, d.rx, e.model, ABE)
    \cup SpeciesClauses(M, d.rx, e.wit, 3, "Num_Ea_Species")
+   \cup AClauses(M, d.rx, e.awit)
    \cup Some(\A k \in DOMAIN d.sites : \A j \in DOMAIN M.sites :
                 M.sites[j].name = d.sites[k].name => PrintedOK(d.sites[k].sden, M.sites[j].sden), "Num_Sden")
    \cup Some(\A k \in DOMAIN d.bulk : \A j \in DOMAIN M.sites :
